@@ -190,6 +190,13 @@ func init() {
 		}
 		return ebpReadObs(a[0].B)
 	})
+	// the model op ebp.readg is the reader with notes/findings/C05-ebp.patch applied; here it is the same real function
+	register("ebp.readg", func(a []Val) Val {
+		if len(a) != 1 || a[0].K != 1 {
+			return VBad()
+		}
+		return ebpReadObs(a[0].B)
+	})
 	register("ebp.build", func(a []Val) Val {
 		if len(a) != 2 || a[0].K != 0 || a[1].K != 2 || (a[0].Int() != 0 && a[0].Int() != 1) {
 			return VBad()
